@@ -145,3 +145,43 @@ def reads_of(t: Term, root: Term) -> List[Term]:
             walk(y)
     walk(t)
     return out
+
+
+def abs_range(t: Term):
+    """Compose a chain of constant slices over views into (root, start, end) with start >= 0 from the front and
+    end <= 0 from the back (0 = to the end).  Returns None when a bound is not a constant of that shape."""
+    chain = []
+    t = strip(t)
+    while t[0] == "slice":
+        b = slice_bounds(t)
+        if b is None:
+            return None
+        chain.append((b[1], b[2]))
+        t = strip(b[0])
+    start, end = 0, 0
+    for lo, hi in reversed(chain):      # innermost (closest to the root) first
+        lo = 0 if lo is None else lo
+        if lo < 0:
+            return None
+        if hi is None:
+            hi = 0
+        elif hi > 0:
+            return None                  # absolute upper bounds are not composed here
+        start += lo
+        end += hi
+    return t, start, end
+
+
+def index_of(t: Term):
+    """For ('sub', chain, const k) -> (root, absolute position description) : ('front', n) or ('back', -n)."""
+    t = strip(t)
+    if t[0] != "sub" or not is_const(t[2]) or not isinstance(t[2][1], int):
+        return None
+    r = abs_range(t[1]) if strip(t[1])[0] == "slice" else (strip(t[1]), 0, 0)
+    if r is None:
+        return None
+    root, start, end = r
+    k = t[2][1]
+    if k >= 0:
+        return root, ("front", start + k)
+    return root, ("back", end + k)
